@@ -598,6 +598,72 @@ def freeze_verdict(repo: Repo, fn: FuncInfo, depth: int = 0, stack: tuple = ()) 
     return "ok", "nx.freeze(graph) is passed on every path to the end of the construction and nothing modifies the graph afterwards", final[0]
 
 
+def order_verdict(repo: Repo, fn: FuncInfo, mod_param: str, imp_param: str, imp_classes: set[str] | None, depth: int = 0) -> tuple[str, str, tuple]:
+    """('ok' | 'violated' | 'undecided', detail, (function, node)): in `fn` every element of the modules parameter is registered as
+    a node (in the graph or in a node ledger) before the first edge is created per element of the imports parameter.  A single
+    call that does both is followed into its callee (parameters mapped by position / keyword)."""
+    T = types_of(repo)
+    gb = GraphBuild(repo, fn)
+    v, cfg, ev = gb.view, gb.cfg, gb.ev
+    d_mod, d_imp = _derived(v, mod_param), _derived(v, imp_param)
+    node_units: list[ast.AST] = []
+    edge_units: list[ast.AST] = []
+    # an element recorded in a ledger (a container the graph is materialised from later) counts like the graph call
+    for s, e in ev.items():
+        for c in [*e.get("edge", []), *e.get("ledge", [])]:
+            u = _unit_over(v, c, d_imp, repo, T, imp_classes)
+            if u is not None and u not in edge_units:
+                edge_units.append(u)
+    opaque: list[tuple[ast.AST, ast.AST]] = []  # simple statements that register modules *and* create import edges (statement, call)
+    for s, e in ev.items():
+        for c in [*e.get("node", []), *e.get("lnode", [])]:
+            u = _unit_over(v, c, d_mod, repo, T)
+            if u is not None and not isinstance(u, (ast.For, ast.AsyncFor, ast.While)) and any(u is x for x in edge_units) and all(u is not o for o, _c in opaque):
+                opaque.append((u, c))
+            if u is not None and u not in node_units and not any(u is x or x in list(ancestors(u)) for x in edge_units):
+                node_units.append(u)
+    if not edge_units:
+        return "undecided", f"no statement of {fn.qualname} creates edges per element of `{imp_param}`: the import loop was not recognised", (fn, fn.node)
+
+    def complete(u: ast.AST) -> bool:
+        # the registration loop runs to its end: no break of its own
+        if not isinstance(u, (ast.For, ast.AsyncFor)):
+            return True
+        for b in ast.walk(u):
+            if isinstance(b, ast.Break):
+                inner = next((a for a in ancestors(b) if isinstance(a, (ast.For, ast.AsyncFor, ast.While))), None)
+                if inner is u:
+                    return False
+        return True
+
+    good = [u for u in node_units if complete(u) and all(u is not e and u not in list(ancestors(e)) and cfg.dominates(u, e) for e in edge_units)]
+    if good:
+        return "ok", f"every module of `{mod_param}` is registered as a node (`{header(good[0])}`) before the first edge is created from `{imp_param}`", (fn, edge_units[0])
+    if opaque:
+        # one call does both: the order is a property of the callee
+        st, call = opaque[0]
+        if isinstance(call, ast.Call) and depth < 3 and all(e is st for e in edge_units):
+            try:
+                cs, _how = T.callees(v, call, byname_fallback=False)
+            except Exception:  # noqa: BLE001
+                cs = []
+            cs = [g for g in cs if not g.is_abstract and not isinstance(g.node, ast.Lambda)]
+            if len(cs) == 1:
+                g = cs[0]
+                a = g.node.args
+                pos = [p.arg for p in [*a.posonlyargs, *a.args]]
+                if Roots.self_name(g) is not None and pos:
+                    pos = pos[1:]
+                bound: dict[str, ast.expr] = dict(zip(pos, [x for x in call.args if not isinstance(x, ast.Starred)]))
+                bound.update({k.arg: k.value for k in call.keywords if k.arg})
+                gm = [p for p, x in bound.items() if _mentions(x, d_mod) and not _mentions(x, d_imp)]
+                gi = [p for p, x in bound.items() if _mentions(x, d_imp) and not _mentions(x, d_mod)]
+                if len(gm) == 1 and len(gi) == 1:
+                    return order_verdict(repo, g, gm[0], gi[0], imp_classes, depth + 1)
+        return "undecided", f"`{header(st)}` registers the modules of `{mod_param}` and creates the edges of `{imp_param}` inside one expression: their order cannot be seen", (fn, st)
+    return "violated", f"import edges (`{header(edge_units[0])}`) are created before all modules of `{mod_param}` are nodes: the has_node guard makes the edge set depend on the order of imports/modules", (fn, edge_units[0])
+
+
 def run_r1(repo: Repo, res: Result) -> None:
     T = types_of(repo)
     R = _roots(repo)
@@ -631,15 +697,12 @@ def run_r1(repo: Repo, res: Result) -> None:
             res.undecide("C15.R1", key, detail, where(init, node or init.node))
         else:
             res.add("C15.R1", key, verdict == "ok", detail, where(init, init.node), kind="dominance")
-        gb = GraphBuild(repo, init)
-        v, cfg, ev = gb.view, gb.cfg, gb.ev
         # nodes before import edges
         params = [p for p in init.param_names if p != Roots.self_name(init)]
         okey = f"{init.relpath}::{init.qualname}::nodes before edges"
         if len(params) < 2:
             res.undecide("C15.R1", okey, "the constructor does not take (modules, imports): cannot tell module registration from import edges")
         else:
-            d_mod, d_imp = _derived(v, params[0]), _derived(v, params[1])
             # the imports argument is recognised by the class of its elements where the annotation tells it
             imp_classes: set[str] | None = None
             ec = _elem_classes(T.param_type(init, params[1]))
@@ -649,43 +712,11 @@ def run_r1(repo: Repo, res: Result) -> None:
                     ci = repo.classes.get(fq)
                     if ci is not None:
                         imp_classes |= {c.fq for c in repo.mro(ci)} | {c.fq for c in repo.subclasses(ci)}
-            node_units: list[ast.AST] = []
-            edge_units: list[ast.AST] = []
-            # an element recorded in a ledger (a container the graph is materialised from later) counts like the graph call
-            for s, e in ev.items():
-                for c in [*e.get("edge", []), *e.get("ledge", [])]:
-                    u = _unit_over(v, c, d_imp, repo, T, imp_classes)
-                    if u is not None and u not in edge_units:
-                        edge_units.append(u)
-            for s, e in ev.items():
-                for c in [*e.get("node", []), *e.get("lnode", [])]:
-                    u = _unit_over(v, c, d_mod, repo, T)
-                    if u is not None and u not in node_units and not any(u is x or x in list(ancestors(u)) for x in edge_units):
-                        node_units.append(u)
-            if not edge_units:
-                res.undecide("C15.R1", okey, f"no statement of the constructor creates edges per element of `{params[1]}`: the import loop was not recognised", where(init, init.node))
+            verdict, detail, (wf, wn) = order_verdict(repo, init, params[0], params[1], imp_classes)
+            if verdict == "undecided":
+                res.undecide("C15.R1", okey, detail, where(wf, wn))
             else:
-                def complete(u: ast.AST) -> bool:
-                    # the registration loop runs to its end: no break of its own
-                    if not isinstance(u, (ast.For, ast.AsyncFor)):
-                        return True
-                    for b in ast.walk(u):
-                        if isinstance(b, ast.Break):
-                            inner = next((a for a in ancestors(b) if isinstance(a, (ast.For, ast.AsyncFor, ast.While))), None)
-                            if inner is u:
-                                return False
-                    return True
-
-                good = [u for u in node_units if complete(u) and all(u is not e and u not in list(ancestors(e)) and cfg.dominates(u, e) for e in edge_units)]
-                ok = bool(good)
-                res.add(
-                    "C15.R1",
-                    okey,
-                    ok,
-                    f"every module of `{params[0]}` is registered as a node (`{header(good[0])}`) before the first edge is created from `{params[1]}`" if ok else f"import edges (`{header(edge_units[0])}`) are created before all modules of `{params[0]}` are nodes: the has_node guard makes the edge set depend on the order of imports/modules",
-                    where(init, edge_units[0]),
-                    kind="dominance",
-                )
+                res.add("C15.R1", okey, verdict == "ok", detail, where(wf, wn), kind="dominance")
     # who may modify a graph after construction: nothing that an evaluation or a public method of a graph holder can reach
     public = [m for g in holders for c in R.hierarchy(g) for m in c.methods.values() if m not in inits and (not m.name.startswith("_") or (m.name.startswith("__") and m.name not in ("__init__", "__post_init__")))]
     outside = reachable_funcs(repo, [*public, *roots], byname=True, stop={i.fq for i in inits})
